@@ -67,6 +67,12 @@ func init() {
 		QuickRuns: 500, ThoroughRuns: 40000, QuickWall: 80 * time.Second, ThoroughWall: 25 * time.Minute,
 		Rule: "one evaluation = one seeded simulated MUX run with RPCs through the MultiClientConn: in-flight RPCs during session churn (must end by their deadline), then at quiescent points: 4*N calls over the full pool (all succeed on registered sessions, spread over >= 2), sessions killed one by one (calls fail over to survivors, CanMakeCalls tracks the set, unavailability with none left), a new session appears (calls resume). distinct = distinct trace fingerprint; non-trivial = sessions were established and at least one RPC succeeded",
 		Real: muxReal, Stub: muxStub, Assume: muxAssume})
+	addSpec(&propSpec{ID: "C19", Profiles: []string{"C19"}, Level: "fault_enumeration",
+		QuickRuns: 1500, ThoroughRuns: 100000, QuickWall: 80 * time.Second, ThoroughWall: 20 * time.Minute,
+		Rule:   "one evaluation = one seeded run of 3-6 TLS handshakes between the proxy's TLS configuration (server role: encryption.GetServerTLSConfig as wrapped by the mux receiver and the TCP server; client role: GetClientTLSConfig as wrapped by the mux establisher and the TCP client) and a harness peer whose credential is drawn from {valid chain, short-lived valid, self-signed, foreign CA, expired, not yet valid, wrong extended key usage, wrong name, none}, with verification on/off, with/without own certificate, an optional 2 h jump of the simulated clock between issuance and handshake, and an optional connection cut or byte flip at a random offset; 'admitted' = handshake completed on both sides and one application byte crossed each way; reference = independent x509 verification against the configured CA at the simulated time. distinct = distinct trace fingerprint (the sequence of cases and outcomes)",
+		Real:   []string{"encryption.GetServerTLSConfig / GetClientTLSConfig / fetchCACert / validateHasCA", "crypto/tls, crypto/x509 (standard library)"},
+		Stub:   []string{"network: vsim/simnet connection with cut / byte-flip switches", "peer: harness TLS endpoint with per-run generated credentials that presents its certificate regardless of the CA hint"},
+		Assume: append(append([]string{}, commonAssume...), "the mux receiver/establisher wrappers are tls.Server(conn, cfg) / tls.Client(conn, cfg) and the TCP server/client use credentials.NewTLS(cfg) with the same cfg: the handshake is performed directly on those configs", "crypto/rand is not owned by the simulator; outcomes do not depend on it")})
 	addSpec(&propSpec{ID: "C08", Profiles: []string{"C08", "C04"}, Level: "exploration",
 		QuickRuns: 1500, ThoroughRuns: 150000, QuickWall: 75 * time.Second, ThoroughWall: 20 * time.Minute,
 		Rule: "one evaluation = one seeded simulated ROUTE run with stream churn (successor incarnations opening while predecessors tear down); oracles: no unrecovered panic, functional probes on the newest incarnation, empty registries and no live task after all streams ended",
